@@ -28,6 +28,11 @@ class AssumeFailed(Exception):
     """raised by ConcreteSym.assume when a recorded input does not satisfy the harness assumption"""
 
 
+class PathWallTimeout(BaseException):
+    """raised by the engine's SIGALRM watchdog inside a path that exceeds its wall-clock budget (BaseException so
+    that `except Exception` clauses in the code under test cannot swallow it)"""
+
+
 class HarnessError(Exception):
     """the machinery (not hio) is at fault"""
 
@@ -147,10 +152,23 @@ class ConcreteSym:
         self.notes[key] = value
 
 
-def run_concrete(harness, part, inputs):
-    """run harness on concrete inputs; returns (Failure|None, tags, notes).  AssumeFailed propagates."""
+def run_concrete(harness, part, inputs, wall_s=30.0):
+    """run harness on concrete inputs; returns (Failure|None, tags, notes).  AssumeFailed propagates.
+    A run that exceeds wall_s is reported as Failure('non-termination:path-wall-timeout')."""
+    import signal
     cs = ConcreteSym(inputs)
-    res = harness(cs, part)
+
+    def on_alarm(signum, frame):
+        raise PathWallTimeout()
+    old = signal.signal(signal.SIGALRM, on_alarm)
+    signal.setitimer(signal.ITIMER_REAL, wall_s)
+    try:
+        res = harness(cs, part)
+    except PathWallTimeout:
+        res = Failure('non-termination:path-wall-timeout', 'concrete run did not finish within %.0f s' % wall_s)
+    finally:
+        signal.setitimer(signal.ITIMER_REAL, 0)
+        signal.signal(signal.SIGALRM, old)
     if res is not None and callable(res.why):
         res.why = res.why()
     return res, cs.tags, cs.notes
